@@ -11,6 +11,25 @@ import (
 func VK01FilesSeq() {
 	blobs := vmodel.SmallBlobs(3)
 	ds := NewStorage(newVFS(), "/root")
+	vmodel.NoSweep = true
 	vmodel.SeqHistory(ds, blobs, 0, 3)
+	vrt.Cover("done")
+}
+
+// VK01FilesSubFetch: every ranged fetch of stored, removed and never-stored blobs.
+func VK01FilesSubFetch() {
+	blobs := vmodel.SmallBlobs(3)
+	ds := NewStorage(newVFS(), "/root")
+	vmodel.NoSweep = true
+	have := vmodel.SeqHistory(ds, blobs, 0, 1) // one arbitrary operation first
+	for i := 0; i < 2; i++ {
+		if vrt.Bool() {
+			op := vmodel.LinOp{Kind: vmodel.LinReceive, Blob: i}
+			vmodel.LinRun(ds, blobs, &op)
+			vrt.Assert(op.Err == nil, "receive succeeds")
+			have |= 1 << uint(i)
+		}
+	}
+	vmodel.SubFetchSweep(ds, blobs, have)
 	vrt.Cover("done")
 }
